@@ -39,6 +39,7 @@ func runC15(opt *Options) int {
 			{Name: "K8.defaultoutputfile", Pkg: "config", Harness: "VerifHarness_C15_DefaultOutputFile", Unwind: 64, SetInts: ints},
 			{Name: "K8.getpackages", Pkg: "config", Harness: "VerifHarness_C15_GetPackages", Unwind: 64, NoMapPermute: true},
 			{Name: "K8.resolvepackage", Pkg: "config", Harness: "VerifHarness_C15_ResolvePackage", Unwind: 64, E2E: "c15"},
+			{Name: "K8.resolvetarget", Pkg: "config", Harness: "VerifHarness_C15_ResolveTarget", Unwind: 64},
 			kernelGenerateConverters("c15"),
 		},
 		Funcs:     []string{"generator.(*fileManager).Get", "generator.getOutputDir", "config.(*ConverterConfig).PackageID", "config.parseConverterLine (output:package, output:file arms)", "parse.File", "parse.String", "config.defaultOutputFile", "config.getPackages", "config.registerConverterLines", "config.registerMethodLines", "config.resolveOutputPackage", "config.resolvePackage", "pkgload.New", "pkgload.(*PackageLoader).load/GetUncheckedPkg", "goverter.GenerateConverters", "goverter.generateConvertersRaw", "goverter.writeFiles"},
@@ -71,13 +72,14 @@ func runC16(opt *Options) int {
 func runC17(opt *Options) int {
 	lr := &laRun{
 		Opt:  opt,
-		Pkgs: []string{"generator", "cli", "."},
+		Pkgs: []string{"generator", "cli", "config", "."},
 		Kernels: []layera.Kernel{
 			kernelGenerateConverters("c17"),
 			{Name: "K8.generate", Pkg: "generator", Harness: "VerifHarness_C17_Generate", Unwind: 16, E2E: "c17", Stub: []string{"github.com/jmattheis/goverter/generator.generateConverter"}},
 			{Name: "K8.run", Pkg: "cli", Harness: "VerifHarness_C17_Run", Unwind: 16, E2E: "c17", Stub: []string{"github.com/jmattheis/goverter/cli.Parse", "github.com/jmattheis/goverter.GenerateConverters"}},
+			{Name: "K8.extendfault", Pkg: "config", Harness: "VerifHarness_C17_ExtendFault", Unwind: 24, E2E: "c17", Stub: []string{"(*github.com/jmattheis/goverter/pkgload.PackageLoader).GetMatching"}},
 		},
-		Funcs:     []string{"goverter.GenerateConverters", "goverter.generateConvertersRaw", "goverter.writeFiles", "generator.Generate", "generator.(*fileManager).Get", "generator.(*fileManager).renderFiles", "cli.Run"},
+		Funcs:     []string{"goverter.GenerateConverters", "goverter.generateConvertersRaw", "goverter.writeFiles", "generator.Generate", "generator.(*fileManager).Get", "generator.(*fileManager).renderFiles", "cli.Run", "config.parseConverterLine (extend arm)"},
 		E2EAlways: "c17",
 		Bounds:    "every failing stage (doc scan, config, generation), <= 3 converters with the failure at any position, <= 2 output files, every parse outcome of the command line (error, help, gen, version)",
 		Assume:    k8Assume,
